@@ -70,6 +70,7 @@ type syncObs struct {
 	Log      string          `json:"log,omitempty"`
 	Wire     *wireObs        `json:"wire,omitempty"`
 	Full     *fullObs        `json:"fullwire,omitempty"`
+	Full2    *fullObs        `json:"fullwire2,omitempty"` // repeat: the transcript of the second run
 	Retire   bool            `json:"retire_worker,omitempty"` // a hung session's goroutines are still parked in this worker
 }
 
@@ -249,7 +250,7 @@ func syncHandler(w *workerCtx, line []byte) (any, error) {
 		var drec *wireRec
 		dwait := func() {}
 		dport := port
-		if s.Full && runs == 1 && (s.Arr == "pull" || s.Arr == "push") {
+		if s.Full && (s.Arr == "pull" || s.Arr == "push") {
 			drec = newWireRec()
 			pp, pstop, pwait, perr := tapProxy(port, drec)
 			if perr != nil {
@@ -263,7 +264,11 @@ func syncHandler(w *workerCtx, line []byte) (any, error) {
 		finish := func(rerr error) {
 			if drec != nil && rerr == nil {
 				dwait()
-				obs.Full = drec.analyseFull(s.Arr == "push", fullOptsOf(true))
+				if fo := drec.analyseFull(s.Arr == "push", fullOptsOf(true)); runs == 1 {
+					obs.Full = fo
+				} else {
+					obs.Full2 = fo
+				}
 			}
 		}
 		_ = finish
@@ -303,7 +308,11 @@ func syncHandler(w *workerCtx, line []byte) (any, error) {
 				obs.Wire = rec.analyse(wirekit.ListOpts{})
 			}
 			if rec != nil && rerr == nil && s.Full {
-				obs.Full = rec.analyseFull(s.Arr == "libpush", fullOptsOf(false))
+				if fo := rec.analyseFull(s.Arr == "libpush", fullOptsOf(false)); runs == 1 {
+					obs.Full = fo
+				} else {
+					obs.Full2 = fo
+				}
 			}
 		default:
 			return "harness", "unknown arrangement " + s.Arr
